@@ -66,6 +66,10 @@ pub enum ModelEvaluatorError {
   ReadLockFailed(String),
   #[error("write lock failed with reason '{0}'")]
   WriteLockFailed(String),
+  #[error("decision table has no output clause")]
+  DecisionTableWithoutOutputClause,
+  #[error("decision table rule has {0} input entries and {1} output entries, expected {2} and {3}")]
+  DecisionTableRuleSizeMismatch(usize, usize, usize, usize),
 }
 
 impl From<ModelEvaluatorError> for DmntkError {
@@ -132,4 +136,12 @@ pub fn err_read_lock_failed(reason: impl ToString) -> DmntkError {
 
 pub fn err_write_lock_failed(reason: impl ToString) -> DmntkError {
   ModelEvaluatorError::WriteLockFailed(reason.to_string()).into()
+}
+
+pub fn err_decision_table_without_output_clause() -> DmntkError {
+  ModelEvaluatorError::DecisionTableWithoutOutputClause.into()
+}
+
+pub fn err_decision_table_rule_size_mismatch(inputs: usize, outputs: usize, expected_inputs: usize, expected_outputs: usize) -> DmntkError {
+  ModelEvaluatorError::DecisionTableRuleSizeMismatch(inputs, outputs, expected_inputs, expected_outputs).into()
 }
